@@ -20,8 +20,10 @@ import (
 	"net/netip"
 	"os"
 	"path/filepath"
+	"regexp"
 	"sort"
 	"strings"
+	"sync"
 	"time"
 
 	"github.com/AdguardTeam/AdGuardHome/internal/vfkit"
@@ -687,6 +689,88 @@ func (w *vfC10World) staticCall(path string, op vfC10Op) (ok bool, body string) 
 	return rec.Code == http.StatusOK, strings.TrimSpace(rec.Body.String())
 }
 
+// ---- known findings (HARNESS_GUIDE rule 10) ----
+
+// Signatures of the findings of this check in known_findings.json.
+const (
+	vfC10SigDecline  = "decline-adds-replacement-lease-twice"
+	vfC10SigOutside  = "static-outside-range-marks-offset-zero"
+	vfC10SigSkip     = "rmdynamiclease-skips-entry-after-removed"
+	vfC10SigRejected = "rejected-static-lease-removes-dynamic-leases"
+	vfC10SigLoadName = "load-invents-hostname-that-clashes"
+)
+
+// vfC10Open returns the signatures listed as open.
+var vfC10Open = sync.OnceValue(func() (open map[string]bool) {
+	open = map[string]bool{}
+	for _, sig := range []string{vfC10SigDecline, vfC10SigOutside, vfC10SigSkip, vfC10SigRejected, vfC10SigLoadName} {
+		if _, ok := vfkit.KnownOpen("C10", sig); ok {
+			open[sig] = true
+		}
+	}
+
+	return open
+})
+
+var vfC10GeneratedRe = regexp.MustCompile(`^\d+-\d+-\d+-\d+$`)
+
+// excludedShape returns the signature of the open known finding whose shape the
+// step has, or "".  Such steps are not executed and are counted as excluded.
+func (w *vfC10World) excludedShape(op vfC10Op) (sig string) {
+	open := vfC10Open()
+	if len(open) == 0 {
+		return ""
+	}
+
+	if open[vfC10SigLoadName] && vfC10GeneratedRe.MatchString(op.Host) {
+		return vfC10SigLoadName
+	}
+
+	mem := w.memory()
+	switch op.Kind {
+	case "decline":
+		for _, e := range mem {
+			if e.Static || e.MAC != op.MAC || e.IP != op.IP {
+				continue
+			}
+			if open[vfC10SigDecline] {
+				return vfC10SigDecline
+			}
+			if open[vfC10SigLoadName] && vfC10GeneratedRe.MatchString(e.Host) {
+				return vfC10SigLoadName
+			}
+		}
+	case "static_add", "static_update":
+		ip, err := netip.ParseAddr(op.IP)
+		inSubnet := err == nil && w.subnet.Contains(ip)
+		if open[vfC10SigOutside] && inSubnet && !w.inPool[ip] && ip != w.gateway {
+			return vfC10SigOutside
+		}
+		if op.Kind != "static_add" {
+			return ""
+		}
+		host := strings.ReplaceAll(strings.ToLower(op.Host), " ", "-")
+		touchesDynamic, conflictsStatic := false, !inSubnet
+		for _, e := range mem {
+			same := e.MAC == op.MAC || e.IP == op.IP
+			switch {
+			case e.Static && (same || (host != "" && e.Host == host)):
+				conflictsStatic = true
+			case !e.Static && (same || (host != "" && e.Host == host)):
+				touchesDynamic = true
+			}
+		}
+		if open[vfC10SigSkip] && touchesDynamic {
+			return vfC10SigSkip
+		}
+		if open[vfC10SigRejected] && touchesDynamic && conflictsStatic {
+			return vfC10SigRejected
+		}
+	}
+
+	return ""
+}
+
 // ---- steps ----
 
 // do executes one step, updates the model, checks every invariant and returns
@@ -699,6 +783,12 @@ func (w *vfC10World) do(op vfC10Op) (outcome string) {
 	case "@acked":
 		op.IP = w.acked[op.MAC].String()
 	}
+	if sig := w.excludedShape(op); sig != "" {
+		vfC10.Excluded(sig)
+
+		return "excluded"
+	}
+
 	w.trace = append(w.trace, vfC10OpString(op)+" -> ...")
 	outcome = w.apply(op)
 	w.trace[len(w.trace)-1] = vfC10OpString(op) + " -> " + outcome
